@@ -151,6 +151,8 @@ def gen_case(rnd, kind='build', tmax=10):
     heat = rnd.random() < 0.5
     fuel = rnd.random() < 0.5
     case['cls'] = 'CHPAsset' if heat else 'Plant'
+    if heat and kind in ('build', 'portfolio') and rnd.random() < (0.45 if kind == 'build' else 0.35):
+        case['cls'] = 'CHPAsset_with_min_load_costs'
     case['nodes'] = ['el'] + (['heat'] if heat else []) + (['gas'] if fuel else [])
     if kind == 'build' and rnd.random() < 0.03:
         case['nodes'] = ['el'] if heat else ['el', 'x', 'gas']      # CHP with one node: assertion; Plant with three: no fuel
@@ -275,6 +277,20 @@ def gen_case(rnd, kind='build', tmax=10):
             args['fuel_efficiency'] = 0.
         if rnd.random() < 0.5 and mode != 'plain':
             args['consumption_if_on'] = gen_param(rnd, case, pts, 'k_ci', 0, 3, ['scalar', 'scalar', 'dict', 'key', 'array'])
+    if case['cls'] == 'CHPAsset_with_min_load_costs':
+        r = rnd.random()
+        if r < 0.8:
+            args['min_load_threshhold'] = gen_param(rnd, case, pts, 'k_thr', 0, 6, ['scalar', 'scalar', 'dict', 'key', 'array'])
+        elif r < 0.87:
+            args['min_load_threshhold'] = -1.          # largest threshold negative: nothing is added
+        elif r < 0.9:
+            args['min_load_threshhold'] = None
+        r = rnd.random()
+        if r < 0.85:
+            args['min_load_costs'] = gen_param(rnd, case, pts, 'k_mlc', 0, 9, ['scalar', 'scalar', 'dict', 'key', 'array'])
+        elif r < 0.92:
+            args['min_load_costs'] = -2.               # largest cost negative: nothing is added
+        # else: the default None: nothing is added
     if kind == 'build':
         if rnd.random() < 0.1 and T >= 2:
             a = rnd.randint(0, T - 1)
@@ -412,10 +428,17 @@ def run_impl(case):
             out['asset'] = asset
         except Exception as e:
             out.update(error=err_class(e), stage='chp')
+        try:
+            asset2 = build_asset(case)
+            tg = scen.make_grid(case['grid'])
+            c = asset2.setup_optim_problem(prices, tg, costs_only=True)
+            out['costs_only'] = {'c': [fs(v) for v in np.asarray(c, dtype=float)]}
+        except Exception as e:
+            out['costs_only'] = {'error': err_class(e)}
     return out
 
 
-def request(case, ir):
+def request(case, ir, costs_only=False):
     a = scen.dec(copy.deepcopy(case['args']))
     freq = a.get('freq')
     p = {'name': case['name'], 'nodes': case['nodes'], 'no_heat': case['cls'] == 'Plant',
@@ -429,8 +452,33 @@ def request(case, ir):
          'fuel_eff': param_json(a.get('fuel_efficiency', 1.)), 'cons_if_on': param_json(a.get('consumption_if_on', 0.)),
          'freq_mismatch': freq is not None and freq != case['grid']['freq']}
     base = ir.get('base') or {'name': case['name'], 'nodes': case['nodes'], 'c': [], 'l': [], 'u': [], 'rows': [], 'mapping': []}
-    return {'op': OP, 'p': p, 'base': base, 'grid': ir['grid'], 'prices': prices_json(case['prices']),
-            'unit_s': case['unit_s'], 'step_s': case['step_s']}
+    req = {'op': OP, 'p': p, 'base': base, 'grid': ir['grid'], 'prices': prices_json(case['prices']),
+           'unit_s': case['unit_s'], 'step_s': case['step_s']}
+    if case['cls'] == 'CHPAsset_with_min_load_costs':
+        thr = a.get('min_load_threshhold', 0.)
+        mlc = a.get('min_load_costs', None)
+        req['min_load'] = {'threshold': None if thr is None else param_json(thr), 'costs': None if mlc is None else param_json(mlc)}
+    if costs_only:
+        req['costs_only'] = True
+    return req
+
+
+def compare_costs_only(case, ir, mr):
+    """`setup_optim_problem(costs_only=True)` vs the model's cost vector"""
+    co = ir.get('costs_only')
+    if co is None or ir.get('stage') in ('base', 'ctor'):
+        return []
+    if 'error' in co:
+        if 'error' not in mr:
+            return ['chp.costs_only: implementation raises %s but the model returns a vector' % co['error']]
+        if ERRMAP.get(mr['error'], mr['error']) != co['error']:
+            return ['chp.costs_only: error class %s (impl) vs %s (model)' % (co['error'], mr['error'])]
+        return []
+    if 'error' in mr:
+        return ['chp.costs_only: model rejects (%s) what the implementation computes' % mr['error']]
+    from ..pf import cmp_vec
+    d = cmp_vec('chp.costs_only.c', mr['c'], co['c'], 0 if case.get('exact') else 1e-9)
+    return [d] if d else []
 
 
 def compare(case, ir, mr):
@@ -508,7 +556,7 @@ def bool_vars(op):
     if 'bool' not in m.columns:
         return []
     mm = m[~m.index.duplicated(keep='first')]
-    return [int(i) for i in mm.index[mm['bool'].fillna(False).astype(bool)]]
+    return [int(i) for i, b in zip(mm.index, mm['bool'].values) if b is True or b == True]
 
 
 def highs(op, obj=None, lb=None, ub=None):
@@ -760,7 +808,7 @@ def oracle_portfolio(case):
         return v, len(sel) > 0
     start_lower = np.zeros(T)
     power, _ = series('disp', case['nodes'][0])
-    has_heat = case['cls'] == 'CHPAsset'
+    has_heat = case['cls'] in ('CHPAsset', 'CHPAsset_with_min_load_costs')
     heat = series('disp', case['nodes'][1])[0] if has_heat else np.zeros(T)
     on, has_on = series('bool_on', None)
     start, has_start = series('bool_start', None)
@@ -834,8 +882,37 @@ def oracle_portfolio(case):
                 viol.append(V('chp.start_flag', 'step %d: start flag %d but on goes %d -> %d (start costs %.6g, start fuel %.6g)' % (
                     t, start_r[t], prev, on_r[t], P['start_costs'][t], P['start_fuel'][t]), kind=kind, free=not paid, probe=False, **facts))
                 break
+    # minimum-load costs: below the threshold while on => the boolean is 1 (and its cost is charged)
+    if case['cls'] == 'CHPAsset_with_min_load_costs':
+        bthr, has_thr = series('bool_threshhold', None)
+        if has_thr:
+            a_dec = scen.dec(copy.deepcopy(case['args']))
+            rg = asset.timegrid.restricted
+            thr = vec_of(a_dec.get('min_load_threshhold', 0.), list(rg.timepoints), np.asarray(rg.I), np_prices(case), 0., T) * dt
+            mlc = vec_of(a_dec.get('min_load_costs'), list(rg.timepoints), np.asarray(rg.I), np_prices(case), 0., T) * dt
+            b_r = np.round(bthr)
+            below = 0
+            for t in range(T):
+                is_on = (not has_on) or on_r[t] == 1
+                if is_on and power[t] < thr[t] - tol:
+                    below += 1
+                    if b_r[t] != 1:
+                        viol.append(V('chp.min_load', 'step %d: on with power %.6g below the threshold %.6g but bool_threshhold = %g' % (
+                            t, power[t], thr[t], bthr[t]), kind='min_load_flag_missing', **facts))
+                        break
+                elif b_r[t] == 1 and mlc[t] > 0:
+                    viol.append(V('chp.min_load', 'step %d: bool_threshhold = 1 with cost %.6g although %s' % (
+                        t, mlc[t], 'off' if not is_on else 'power %.6g >= threshold %.6g' % (power[t], thr[t])),
+                        kind='min_load_flag_paid_needlessly', **facts))
+                    break
+            extra_obs = {'min_load_below': below}
+        else:
+            extra_obs = {'min_load_below': None}
+    else:
+        extra_obs = {}
     obs = {'solved': True, 'on_steps': int(on_r.sum()) if has_on else None, 'starts': int(start_r.sum()) if has_start else None,
            'value': float(res.value), 'v_max': float(v.max())}
+    obs.update(extra_obs)
     return viol, obs
 
 
@@ -855,6 +932,17 @@ def run_case(case, drv, pattern_tmax=7):
         return r
     mr = mr['ok']
     r['disagreements'] += compare(case, ir, mr)
+    if case['kind'] == 'build' and 'costs_only' in ir:
+        mc = drv.ask(request(case, ir, costs_only=True))
+        if 'ok' not in mc:
+            r['disagreements'].append('chp.costs_only: driver rejected the request: %s' % str(mc)[:300])
+        else:
+            r['disagreements'] += compare_costs_only(case, ir, mc['ok'])
+            f.append('costs_only')
+    if 'min_load' in request(case, ir):
+        nv = (mr.get('info') or {}).get('n_chp_vars')
+        if 'problem' in mr and nv is not None:
+            f.append('min-load-added' if len(mr['problem']['c']) > nv else 'min-load-nothing')
     if 'error' in ir:
         f.append('error:%s@%s' % (ir['error'], ir['stage']))
         return r
